@@ -422,6 +422,12 @@ func genTokens(defs []flagDef, shape int) *rapid.Generator[[]string] {
 		default:
 			val = rapid.SampledFrom(goodValues[kind]).Draw(t, "good")
 		}
+		if rapid.IntRange(0, 11).Draw(t, "caseVariant") == 0 {
+			// a name that differs from a defined one by letter case only (-Debug, --VERBOSE, -Help): not a defined flag
+			if v := rapid.SampledFrom([]string{strings.ToUpper(name), strings.ToUpper(name[:1]) + name[1:], strings.ToUpper(name[:1]) + strings.ToLower(name[1:])}).Draw(t, "variant"); v != name {
+				name = v
+			}
+		}
 		if name == "config" {
 			val = rapid.SampledFrom([]string{goodConfig, goodConfig, badConfig, filepath.Join(tmpDir, "missing.json"), tmpDir, "", "~", "~/c.json", filepath.Dir(goodConfig) + "/./good.json"}).Draw(t, "cfgpath")
 		}
